@@ -238,7 +238,9 @@ def build_harness(spec=None, profile="dev", timeout=2400):
     """Build the group's harness binary (every group when spec is None) against /repo's working tree.
     Each group crate is its own cargo workspace (shared target dir), so groups cannot break each other."""
     env = {"CARGO_TARGET_DIR": TARGET, "RUSTFLAGS": "--cfg " + GUARD}
-    pkgs = [spec["harness_pkg"]] if spec is not None else harness_pkgs()
+    # harness_extra_pkgs: further group crates the property's binary drives as sibling processes
+    # (e.g. a second build of the same dump under another cargo feature set: features are per build)
+    pkgs = [spec["harness_pkg"]] + list(spec.get("harness_extra_pkgs", [])) if spec is not None else harness_pkgs()
     rc_all, out_all = 0, ""
     with Lock("cargo"):
         for pkg in pkgs:
